@@ -411,9 +411,12 @@ Definition op_gen_slate_pl (v : val) : val :=
                   let! os := dList (dPair dPos dCands) orders in
                   let! tc := type_loop fl (map fst coh') (map snd coh') sz [] sh' in
                   let! bc := slate_ballot ivs' zero' (fst tc) os in
-                  ok (fst bc, snd tc ++ snd bc)
+                  ok (fst bc, (snd tc, snd bc))
               | _ => err EScript end) ballots in
-          ok (bid', (map fst bs, GUniforms (ncand * length bs) :: concat (map snd bs)))
+          (* all ballot types of the bloc are sampled first (uniforms, shuffles), then the per-ballot
+             Plackett-Luce orders *)
+          ok (bid', (map fst bs, GUniforms (ncand * length bs) :: concat (map (fun x => fst (snd x)) bs)
+                                   ++ concat (map (fun x => snd (snd x)) bs)))
       | _ => err EScript end) v in
     gen_finish pools).
 Definition op_gen_slate_bt (v : val) : val :=
@@ -439,6 +442,27 @@ Definition op_gen_ac (v : val) : val :=
           let! pb' := dList dQ pb in let! po' := dList dQ po in
           let! ds := dList (dPair dCands dCands) draws in
           let! r := ac_bloc nc O bc' oc' pb' po' ds in ok (bid', r)
+      | _ => err EScript end) v in
+    gen_finish pools).
+Definition op_gen_bt_mcmc (v : val) : val :=
+  eRes eGen (let! pools := dList (fun b => match b with
+      | VL [bid; iv; seed; steps] =>
+          let! bid' := dPos bid in let! iv' := dPI iv in let! sd := dCands seed in
+          let! st := dList (dPair dNat dQ) steps in
+          let! bs := bt_mcmc_bloc iv' sd st in ok (bid', (bs, []))
+      | _ => err EScript end) v in
+    gen_finish pools).
+Definition op_gen_slate_mcmc (v : val) : val :=
+  eRes eGen (let! pools := dList (fun b => match b with
+      | VL [bid; ivs; own; coh; zero; seed; steps; orders] =>
+          let! bid' := dPos bid in let! ivs' := dSlateIv ivs in let! own' := dPos own in let! coh' := dQ coh in
+          let! zero' := dCands zero in let! sd := dCands seed in let! st := dList (dPair dNat dQ) steps in
+          let! os := dList (dList (dPair dPos dCands)) orders in
+          if negb (forallb (fun s => Nat.ltb (S (fst s)) (length sd)) st) then err EScript else
+          let types := slate_mcmc_run own' coh' sd st in
+          if negb (Nat.eqb (length types) (length os)) then err EScript else
+          let! bs := rmap (fun to => slate_ballot ivs' zero' (fst to) (snd to)) (combine types os) in
+          ok (bid', (map fst bs, concat (map snd bs)))
       | _ => err EScript end) v in
     gen_finish pools).
 Definition op_gen_spatial (v : val) : val :=
@@ -486,6 +510,8 @@ Definition dispatch (op : Z) (v : val) : val :=
   | 100 => op_gen_slate_bt v
   | 101 => op_gen_ac v
   | 102 => op_gen_spatial v
+  | 103 => op_gen_bt_mcmc v
+  | 104 => op_gen_slate_mcmc v
   | 91 => op_combine_intervals v
   | 92 => op_bt_pdf v
   | 93 => op_calc_prob v
